@@ -145,14 +145,15 @@ Definition x_window_boundaries : machine A A B :=
    the j-th call of closing_mapper(); the closing observable it returns is
    source [S j], subscribed through take(1): its first element (or its
    completion) closes the window and re-arms.  m.disposable = m1 disposes the
-   previous closing subscription. *)
+   previous closing subscription (the one that just fired).  [ww_closing]: the
+   closing source currently subscribed (informative). *)
 Record ww_st := WwSt { ww_cur : nat; ww_next : nat; ww_calls : nat; ww_closing : option nat }.
 
 Definition ww_arm (mapper : nat -> res unit) (s : ww_st) : ww_st * list (cmd A B) * fin :=
   match mapper (ww_calls s) with
   | Raise e => (WwSt (ww_cur s) (ww_next s) (S (ww_calls s)) (ww_closing s), [], Fail e)
   | Ok _ => (WwSt (ww_cur s) (ww_next s) (S (ww_calls s)) (Some (S (ww_calls s))),
-             match ww_closing s with Some k => [CUnsub k] | None => [] end ++ [CSub (S (ww_calls s))], Cont)
+             [CSub (S (ww_calls s))], Cont)
   end.
 
 Definition x_window_when (mapper : nat -> res unit) : machine A A B :=
@@ -163,10 +164,10 @@ Definition x_window_when (mapper : nat -> res unit) : machine A A B :=
        | ISrc O (Err e) => (s, [CWin (ww_cur s) (Err e)], Fail e)
        | ISrc O Done => (s, [CWin (ww_cur s) Done], Complete)
        | ISrc (S _) (Err e) => (s, [CWin (ww_cur s) (Err e)], Fail e)
-       | ISrc (S _) _ =>
+       | ISrc (S j) _ =>
+           (* take(1) / m.disposable = m1: the closing subscription that fired is disposed *)
            let '(s', c, f) := ww_arm mapper (WwSt (ww_next s) (S (ww_next s)) (ww_calls s) (ww_closing s)) in
-           (s', [CWin (ww_cur s) Done; CHand (ww_next s) 0] ++ c
-                ++ match ww_closing s with Some k => [CUnsub k] | None => [] end, f)
+           (s', [CWin (ww_cur s) Done; CHand (ww_next s) 0; CUnsub (S j)] ++ c, f)
        | _ => (s, [], Cont)
        end).
 
